@@ -408,6 +408,7 @@ func driveSelVal(c *ctx) error {
 		"rendered with the real selector builder and validated by the real ValidateMaxRecursionDepth; 25% additionally mutated into ill-formed nodes (renamed/dropped keys, scalars, lists, extra entries) " +
 		"to tie the model's interpreter to go-ipld-prime; non-trivial = contains a recursive clause nested under interpret-as/union/fields/another recursion; distinct = distinct terms"
 	run := func(sc selCase, tag string) {
+		c.inflight(sc)
 		var node datamodel.Node
 		var ast *selAst
 		if sc.Sel != nil {
